@@ -133,6 +133,14 @@ func (fx *FX) evalExpr(env *Env, e Expr) Val {
 			if env.rangeCount.S != "" {
 				return VInt{env.rangeCount}
 			}
+		case "nowunix": // Unix seconds of the most recent time.Now() on this path (ghost)
+			if env.st != nil && env.st.Now.S != "" {
+				return VInt{env.st.Now}
+			}
+		case "nowcalls": // number of time.Now() calls on this path (ghost)
+			if env.st != nil && env.st.NowN.S != "" {
+				return VInt{env.st.NowN}
+			}
 		}
 		if c, ok := fx.u.specConst(x.Name); ok {
 			return c
